@@ -192,3 +192,25 @@ def tla(v):
             return "<<>>"
         return "[" + ", ".join("%s |-> %s" % (k, tla(x)) for k, x in v.items()) + "]"
     raise TypeError(type(v))
+
+
+def apalache_inductive(module, init="Init", indinv="IndInv", safety="Safety", timeout=600):
+    """Discharge an inductive invariant with Apalache: Init => IndInv (length 0), IndInv /\\ Next => IndInv' (length 1),
+    IndInv => Safety (length 0).  Returns (ok, detail).  Runs in a scratch directory."""
+    d = new_scratch("verif-apa-")
+    out = []
+    try:
+        for a_init, a_inv, length in ((init, indinv, 0), (indinv, indinv, 1), (indinv, safety, 0)):
+            cmd = ["apalache-mc", "check", "--init=" + a_init, "--inv=" + a_inv, "--length=%d" % length,
+                   "--out-dir=" + os.path.join(d, "out"), module + ".tla"]
+            try:
+                p = subprocess.run(cmd, cwd=d, stdout=subprocess.PIPE, stderr=subprocess.STDOUT, text=True, timeout=timeout)
+            except (OSError, subprocess.TimeoutExpired) as e:
+                return False, "apalache not runnable: %s" % e
+            ok = "EXITCODE: OK" in p.stdout
+            out.append("%s=>%s@%d:%s" % (a_init, a_inv, length, "OK" if ok else "FAILED"))
+            if not ok:
+                return False, "; ".join(out) + "\n" + p.stdout[-600:]
+        return True, "; ".join(out)
+    finally:
+        shutil.rmtree(d, ignore_errors=True)
